@@ -977,6 +977,10 @@ int myltoa(Long x, char* s)
 	}
 	if (x<0)
 	{
+		if (x == (-9223372036854775807ll - 1)) { // cannot be negated
+			strcpy(s, "-9223372036854775808");
+			return 20;
+		}
 		s[j++] = '-';
 		x = -x;
 	}
